@@ -30,14 +30,42 @@ Finish(k, ok, info) ==
   /\ IF ok THEN bad' = bad
      ELSE /\ PrintT(<< "MISMATCH", l, Ev.ev, info >>) /\ bad' = Append(bad, l)
 
+\* the only randomness request an operation may make: one fallible request for 32 bytes
+OneDraw == << [m |-> "try_fill_bytes", n |-> 32] >>
+
 \* ---- KeyGen(xi) -> pk, sk                                        (Algorithm 6)
 KeyGenEv ==
   /\ Is("KeyGen")
   /\ \/ Go(0, 1, KG0(Ev.xi))
      \/ Go(1, 2, KG1(st))
      \/ Go(2, 3, KG2(st))
-     \/ Finish(3, st.pk = Ev.pk /\ st.sk = Ev.sk,
+     \/ Finish(3, st.pk = Ev.pk /\ st.sk = Ev.sk /\ (("rnglog" \in DOMAIN Ev) => Ev.rnglog = OneDraw),
                [pk_equal |-> st.pk = Ev.pk, sk_equal |-> st.sk = Ev.sk])
+
+\* ---- KeyGenLite: everything of Algorithm 6 except the lattice product (rho, K, tr, s1, s2, lengths)
+KGLite(xi, pk, sk) ==
+  LET hh   == H(xi \o << KK, LL >>, 128)
+      rho  == SubSeq(hh, 1, 32)
+      es   == ExpandS(SubSeq(hh, 33, 96))
+      len1 == NB * ETABITS
+      sec  == CatF(TLCEval([i \in 0 .. LL - 1 |-> TLCEval(BitPack(es.s1[i], ETA, ETA))]), 0, LL)
+              \o CatF(TLCEval([i \in 0 .. KK - 1 |-> TLCEval(BitPack(es.s2[i], ETA, ETA))]), 0, KK)
+  IN [len   |-> Len(pk) = PKLEN /\ Len(sk) = SKLEN,
+      rho   |-> SubSeq(pk, 1, 32) = rho /\ SubSeq(sk, 1, 32) = rho,
+      K     |-> SubSeq(sk, 33, 64) = SubSeq(hh, 97, 128),
+      tr    |-> SubSeq(sk, 65, 128) = H(pk, 64),
+      short |-> SubSeq(sk, 129, 128 + (LL + KK) * len1) = sec]
+KeyGenLiteEv ==
+  /\ Is("KeyGenLite")
+  /\ \/ Go(0, 1, KGLite(Ev.xi, Ev.pk, Ev.sk))
+     \/ Finish(1, st.len /\ st.rho /\ st.K /\ st.tr /\ st.short, st)
+
+\* ---- KeyGenBoth: the seeded and the RNG-driven entry point agree on the same 32 bytes,
+\* and the RNG was asked exactly once, for exactly 32 bytes, through the fallible method
+KeyGenBothEv ==
+  /\ Is("KeyGenBoth")
+  /\ Finish(0, Ev.pk = Ev.pk2 /\ Ev.sk = Ev.sk2 /\ Ev.rnglog = OneDraw,
+            [pk_same |-> Ev.pk = Ev.pk2, sk_same |-> Ev.sk = Ev.sk2, rnglog |-> Ev.rnglog])
 
 \* ---- SignInternal(sk, M', rnd) -> sig, attempts                  (Algorithm 7)
 \* ---- Sign(sk, M, ctx, mode, rnd) -> ok, sig                      (Algorithms 2, 4)
@@ -57,30 +85,47 @@ SignEv ==
         /\ LET sg == SGEncode(st)
                okres == (Ev.ev = "Sign") => Ev.ok
                okatt == ("attempts" \in DOMAIN Ev) => Ev.attempts = st.att
-           IN Finish(4, okres /\ sg = Ev.sig /\ okatt,
+               okrng == ("rnglog" \in DOMAIN Ev) => Ev.rnglog = OneDraw
+           IN Finish(4, okres /\ sg = Ev.sig /\ okatt /\ okrng,
                      [sig_equal |-> sg = Ev.sig, attempts_spec |-> st.att, weight |-> st.wt])
 
 \* ---- VerifyInternal(pk, M', sig) -> res                           (Algorithm 8)
 \* ---- Verify(pk, M, sig, ctx, mode) -> res                         (Algorithms 3, 5)
+\* the call returned (no "panic" field) and returned v
+Returned(v) == ("res" \in DOMAIN Ev) /\ Ev.res = v
 VerifyMp == IF Ev.ev = "Verify" THEN FormatMsg(Ev.mode, Ev.ctx, Ev.m) ELSE Ev.mp
 VerifyEv ==
   /\ Is("VerifyInternal") \/ Is("Verify")
   /\ \/ /\ Ev.ev = "Verify" /\ ~CtxOK(Ev.ctx)
-        /\ Finish(0, Ev.res = FALSE, [expected |-> FALSE, why |-> "context longer than 255 bytes"])
+        /\ Finish(0, Returned(FALSE), [expected |-> FALSE, why |-> "context longer than 255 bytes"])
      \/ /\ Ev.ev = "Verify" => CtxOK(Ev.ctx)
         /\ Go(0, 1, VF0(Ev.pk, Ev.sig))
      \/ /\ pc = 1 /\ VFEarly(st)
-        /\ Finish(1, Ev.res = FALSE, [expected |-> FALSE, hint_ok |-> st.hok, znorm |-> st.zn])
+        /\ Finish(1, Returned(FALSE), [expected |-> FALSE, hint_ok |-> st.hok, znorm |-> st.zn])
      \/ /\ pc = 1 /\ ~VFEarly(st) /\ Go(1, 2, VF1(st, Ev.pk, VerifyMp))
      \/ Go(2, 3, VF2(st))
      \/ Go(3, 4, VF3(st))
      \/ Go(4, 5, VF4(st))
-     \/ Finish(5, Ev.res = VFVerdict(st), [expected |-> VFVerdict(st), znorm |-> st.zn])
+     \/ Finish(5, Returned(VFVerdict(st)), [expected |-> VFVerdict(st), znorm |-> st.zn])
 
 \* ---- Format(mode, ctx, M) -> M'      (the message representative the library hashes)
 FormatEv ==
   /\ Is("Format")
   /\ Finish(0, FormatMsg(Ev.mode, Ev.ctx, Ev.m) = Ev.mp, [expected |-> FormatMsg(Ev.mode, Ev.ctx, Ev.m)])
+
+\* ---- SignFactor: Sign = Sign_internal o FormatMsg (Algorithms 2, 4): the external call equals the
+\* internal one on the M' that the SPECIFICATION assigns to (mode, ctx, M); one 32-byte draw
+SignFactorEv ==
+  /\ Is("SignFactor")
+  /\ LET mp == FormatMsg(Ev.mode, Ev.ctx, Ev.m)
+     IN Finish(0, Ev.ok /\ mp = Ev.mp /\ Ev.ext = Ev.int /\ Ev.rnglog = OneDraw,
+               [mp_equal |-> mp = Ev.mp, ext_equals_int |-> Ev.ext = Ev.int, rnglog |-> Ev.rnglog])
+
+\* ---- Same: two observations that the specification says are one value (determinism)
+SameEv == Is("Same") /\ Finish(0, Ev.a = Ev.b, [what |-> Ev.what])
+
+\* ---- Panic: no algorithm of FIPS 204 panics; a recorded panic never matches
+PanicEv == Is("Panic") /\ Finish(0, FALSE, [call |-> Ev.call, loc |-> Ev.loc, msg |-> Ev.msg])
 
 \* ---- end of trace
 DoneEv == /\ l = Len(tr) + 1 /\ pc = 0
@@ -88,7 +133,8 @@ DoneEv == /\ l = Len(tr) + 1 /\ pc = 0
           /\ TLCSet(1, l)
           /\ pc' = 99 /\ step' = step + 1 /\ UNCHANGED << tr, l, st, bad >>
 
-Next == KeyGenEv \/ SignEv \/ VerifyEv \/ FormatEv \/ DoneEv
+Next == KeyGenEv \/ KeyGenLiteEv \/ KeyGenBothEv \/ SignEv \/ SignFactorEv \/ SameEv \/ VerifyEv \/ FormatEv
+        \/ PanicEv \/ DoneEv
 Spec == Init /\ [][Next]_vars
 
 \* every event was consumed (register 1 is written by DoneEv; needs -workers 1)
